@@ -63,7 +63,19 @@ def failing_stylesheet(r):
         else:
             inner = w % inner
     before = r.choice(['', '<pre>text before</pre>', '<xsl:copy-of select="/*/*[1]"/>'])
-    xsl = (HEAD % '') + '<xsl:key name="k" match="*" use="name()"/><xsl:param name="gp" select="\'d\'"/><xsl:template match="/"><out gp="{$gp}">%s%s</out></xsl:template>%s</xsl:stylesheet>' % (before, inner, ''.join(extra))
+    # data-dependent: the same compiled stylesheet fails on some documents of the history and succeeds on others
+    if r.random() < 0.4:
+        inner = '<xsl:if test="count(//*) mod 2 = %d">%s</xsl:if>' % (r.choice([0, 1]), inner)
+        fname += ' (only for some documents)'
+    glob = ''
+    place = r.random()
+    if place < 0.3:
+        # the failure happens while a top-level variable / parameter is being evaluated (lazily, from a template)
+        kind = r.choice(['variable', 'param'])
+        glob = '<xsl:%s name="gv"><g>%s</g></xsl:%s><xsl:variable name="gv2" select="count($gv)"/>' % (kind, inner, kind)
+        inner = '<xsl:copy-of select="$gv"/><xsl:value-of select="$gv2"/>'
+        names.append('top-level ' + kind)
+    xsl = (HEAD % '') + '<xsl:key name="k" match="*" use="name()"/><xsl:param name="gp" select="\'d\'"/>%s<xsl:template match="/"><out gp="{$gp}">%s%s</out></xsl:template>%s</xsl:stylesheet>' % (glob, before, inner, ''.join(extra))
     return xsl, '%s inside %s' % (fname, '/'.join(names[::-1]) or 'the root template')
 
 
@@ -93,6 +105,7 @@ def case(ctx, idx, res):
         sheets.append(('fail', '<xsl:stylesheet version="1.0" xmlns:xsl="http://www.w3.org/1999/XSL/Transform"><xsl:template match="/"><xsl:value-of select="1 +"/></xsl:template></xsl:stylesheet>', 'stylesheet that does not compile'))
 
     T = d.call(cmd='tnew')['t'].decode()
+    idle = d.call(cmd='snapshot', t=T).get('sizes')          # hook H2: sizes of the internal stacks of an idle transformer
     params = {}          # name -> (kind, value) currently set on T
     cs = {}              # handle -> sheet index
     ps = {}              # handle -> (doc index, xerces)
@@ -202,6 +215,16 @@ def case(ctx, idx, res):
                     res.viol('output|%s' % after, 'step %d (%s): output on the reused transformer differs from a fresh one at byte %d: %r instead of %r; last steps: %s' % (
                         step, desc, i, a[max(0, i - 30):i + 40], b[max(0, i - 30):i + 40], trail[-5:-1]), payload)
                     break
+                # hook H2: between two calls every internal stack is back at its idle size (a leak is seen at the call that causes it)
+                if idle is not None:
+                    now = d.call(cmd='snapshot', t=T).get('sizes')
+                    res.count('snapshots_compared')
+                    if now != idle:
+                        a, b = now.decode().split(','), idle.decode().split(',')
+                        where = [i for i in range(min(len(a), len(b))) if a[i] != b[i]]
+                        res.viol('stack-leak|slot%s' % ('+'.join(str(i) for i in where[:3])), 'step %d (%s -> %s): the execution context is not idle afterwards: stack sizes %s, idle %s (differing slots %s)' % (
+                            step, desc, rT.get('status'), now.decode(), idle.decode(), where), payload)
+                        break
                 if rT.get('status') != b'0':
                     res.count('failures_followed' if step < nops - 1 else 'failures_last')
                     # a failing transformation through a byte target may have delivered a prefix; it must be a prefix of ... nothing to compare
@@ -227,11 +250,11 @@ def main():
                 'callback targets, with stylesheets that succeed or abort (terminate, unknown function, unknown key, conditional terminate after partial output, '
                 'grouping-separator error, element inside attribute, unserializable character, compile error) at a generated depth inside 16 kinds of enclosing '
                 'constructs, and callbacks that refuse data after N bytes. A case is one history; distinct = distinct multiset of operation kinds.')
-    chk.assumptions = ['a newly created XalanTransformer in the same process is the reference', 'install / uninstall of external functions is not driven (the driver has no such command)']
+    chk.assumptions = ['a newly created XalanTransformer in the same process is the reference', 'hook H2 (XalanTransformer::verifSnapshot, 32 stack sizes) is compared with its idle value after every transformation', 'install / uninstall of external functions is not driven (the driver has no such command)']
     chk.ensure(FLAVOUR, 'xvdrv')
     n = 3000 if chk.tier == 'quick' else 40000
     chk.run_cases('c06', 'case', range(n))
-    chk.finish(min_nontrivial=100, required_stats=('identical_outputs', 'failures_followed', 'status_fail', 'status_ok'))
+    chk.finish(min_nontrivial=100, required_stats=('identical_outputs', 'failures_followed', 'status_fail', 'status_ok', 'snapshots_compared'))
 
 
 if __name__ == '__main__':
